@@ -452,7 +452,12 @@ func runC04(ctx *ev.Ctx) {
 		n++
 		if what := c04Eval(c, cs); what != "" {
 			mc := c04Minimise(c, cs)
-			what = c04Eval(c, mc)
+			if w2 := c04Eval(c, mc); w2 != "" {
+				what = w2
+			} else {
+				// not reproducible on its own: the failure depends on what this process decoded before
+				mc, what = cs, what+" (the same body decodes correctly when it is decoded again: the result depends on earlier decodes in this process)"
+			}
 			ctx.Report("", generalise(what), what+" | case: "+mc.Desc(), mc)
 		}
 	})
